@@ -118,7 +118,9 @@ def main():
                 else:
                     y = mk_var(g['y'])
                     da = sc.DataArray(y, coords={y.dim: x})
-                    res['keys'] = sorted(model.guess(da))
+                    gs = model.guess(da)
+                    res['keys'] = sorted(gs)
+                    res['guess'] = {k: (stored(v) if isinstance(v, sc.Variable) else {'py': repr(v)}) for k, v in gs.items()}
             except Exception as ex:
                 res['error'] = type(ex).__name__
                 res['error_text'] = str(ex)[:200]
